@@ -293,6 +293,13 @@ def directed_cases(tier):
         queries2 = [{"q": "bounds", "a": 0, "b": 0}, {"q": "read", "a": t - 2, "b": t + 1}, {"q": "latest", "a": 0, "b": 0},
                     {"q": "ffill", "a": t, "b": t + 1, "method": "ffill"}, {"q": "read", "a": t - 1, "b": t}]
         out.append({"p": p2, "specs": specs, "steps": steps2, "queries": queries2})
+    # a read over four files whose INNER files hold indices with different numbers of digits (999 / 1000; 99999 / 100000)
+    for C_, ks in ((400, [450, 990, 999, 1000, 1005, 1300, 1650]), (40000, [45000, 99990, 99999, 100000, 100001, 130000, 165000])):
+        p3 = {"n": 1, "d": 1, "C": C_, "S": C_, "prefix": "md"}
+        steps3 = [{"s": "w1", "k": k, "data": {"v": {"t": "int", "v": k}}} for k in ks]
+        queries3 = [{"q": "read", "a": ks[0], "b": ks[-1]}, {"q": "read", "a": 0, "b": ks[-1] + 10}, {"q": "ffill", "a": ks[2], "b": ks[-1], "method": "ffill"},
+                    {"q": "read", "a": ks[1], "b": ks[4]}, {"q": "bounds", "a": 0, "b": 0}]
+        out.append({"p": p3, "specs": specs, "steps": steps3, "queries": queries3})
     return out
 
 
